@@ -181,6 +181,17 @@ def extract(d):
     ref["files"]["zlib.h.in"] = hashlib.sha256(zh.encode()).hexdigest()
     protos = re.findall(r"Z_EXTERN\s+(?:Z_DEPRECATED\s+)?[\w\s\*]+?Z_EXPORT(?:VA)?\s+(\w+)\s*\(", _strip_comments(zh))
     ref["prototypes"] = sorted(set(protos))
+    # x86 CRC folding constants (all 32-bit hex literals of the PCLMULQDQ/VPCLMULQDQ templates)
+    fc = set()
+    for f in ("arch/x86/crc32_pclmulqdq_tpl.h", "arch/x86/crc32_fold_pclmulqdq_tpl.h", "arch/x86/crc32_fold_vpclmulqdq_tpl.h"):
+        try:
+            raw = _read(d, f)
+        except OSError:
+            continue
+        ref["files"][f] = hashlib.sha256(raw.encode()).hexdigest()
+        for m in re.findall(r"0x([0-9a-fA-F]{8})\b", _strip_comments(raw)):
+            fc.add(int(m, 16))
+    ref["x86_fold_constants"] = sorted(fc)
     # crc tables
     try:
         cb = src("crc32_braid_tbl.h")
